@@ -112,6 +112,48 @@ def rule_salts(ctx, f):
                   "the %s of /U and of /O are used %s times: one password's branch hashes the other kind of salt (the password is accepted but the file key "
                   "comes out wrong, or the reverse)" % (what, ns), b["span"], detail="%s used %s times each" % (what, ns))
 
+    # the (intermediate key, wrapped file key) pairs: a key derived with the OWNER key salt unwraps /OE, one derived with the USER key salt /UE
+    pairs = 0
+    for i, j, st in F.stmts(b):
+        if not (st[0] == "assign" and st[2][0] == "aggregate" and st[2][1].get("k") == "tuple" and len(st[2][2]) == 2):
+            continue
+        kl, wl = F.op_local(st[2][2][0]), F.op_local(st[2][2][1])
+        if kl is None or wl is None:
+            continue
+        fw = set()
+        fl.origins(wl, fields=fw)
+        wrapped = sorted(x for x in fw if x in ("ue", "oe"))
+        if len(wrapped) != 1:
+            continue
+        sf = set()
+        for a in fl.origins(kl):
+            if a[0] != "call":
+                continue
+            seg = last_seg(a[1])
+            if seg == "revision_6_kdf":
+                for arg in a[3]["args"][1:]:
+                    l = F.op_local(arg)
+                    if l is not None:
+                        fl.origins(l, fields=sf)
+            if seg in ("finalize", "finalize_reset"):
+                hl = F.op_local(a[3]["args"][0])
+                hroots = {x[2] for x in fl.origins(hl) if x[0] == "call" and last_seg(x[1]) == "new"} if hl is not None else set()
+                for ubi, ut in F.calls(b):
+                    if last_seg(F.callee_name(ut)) in ("update", "chain_update") and len(ut["args"]) >= 2:
+                        rl = F.op_local(ut["args"][0])
+                        rroots = {x[2] for x in fl.origins(rl) if x[0] == "call" and last_seg(x[1]) == "new"} if rl is not None else set()
+                        if rroots & hroots:
+                            dl = F.op_local(ut["args"][1])
+                            if dl is not None:
+                                fl.origins(dl, fields=sf)
+        owner_salt = "o" in sf
+        pairs += 1
+        ok = (wrapped == ["oe"]) == owner_salt and ("u" in sf or "o" in sf)
+        ctx.check(ok, "C06-SIB-salts", "from_password#wrapped-key@%d" % pairs, "an intermediate key derived from the %s salt is paired with /%s: the password is accepted "
+                  "but the file key that comes out is wrong" % ("owner" if owner_salt else "user", wrapped[0].upper()), b["blocks"][i]["term"].get("span", b["span"]),
+                  detail="%s key salt <-> /%s" % ("owner" if owner_salt else "user", wrapped[0].upper()))
+    ctx.floor("C06-SIB-salts", pairs, 4, "(intermediate key, wrapped key) pairs of revisions 5 and 6")
+
 
 def rule_order(ctx, f):
     ctx.rule("C06-G1", "in the stream decoder the decrypt call is applied once to the raw backend range and dominates the "
@@ -153,6 +195,14 @@ def rule_order(ctx, f):
                             sw = i
         ctx.check(sw is not None, "C06-G1", b["id"] + "#guard", "decryption is not conditional on the presence of a decoder only",
                   b["span"], detail="skipped only when Storage.decoder is None")
+        # nothing gets around the decoder test: every path from the entry to a normal return passes it (an early return, say for a stream without
+        # filters, hands out ciphertext)
+        if sw is not None:
+            errs = {i2 for i2, bb2 in enumerate(b["blocks"]) if bb2["term"]["k"] == "call" and last_seg(F.callee_name(bb2["term"])) == "from_residual"} | \
+                   {i2 for i2, j2, s2 in F.stmts(b) if s2[0] == "assign" and s2[2][0] == "aggregate" and s2[2][1].get("variant") == "Err"}
+            ok5 = cfg.all_paths_pass(0, cfg.exits, {sw} | errs)
+            ctx.check(ok5, "C06-G1", b["id"] + "#no-bypass", "a path returns data without passing the test for a decoder: such streams come back encrypted",
+                      b["span"], detail="every non-error return is behind `if let Some(decoder)`")
         # id argument is the function's id parameter
         il = arg_local(d[0][1], 1)
         ctx.check(il is not None and fl.derives_from_arg(il), "C06-PROV", b["id"] + "#id",
@@ -224,6 +274,31 @@ def rule_exempt(ctx, f):
         ctx.check(ok and dom, "C06-G2", "crypt::Decoder::decrypt#" + nm,
                   "the %s exemption does not protect every cipher use (returns-untouched=%s, dominates=%s)" % (nm, ok, dom),
                   t["span"], detail="%s test dominates %d cipher uses and returns the data unmodified" % (nm, len(ciphers)))
+    # where the two exempt objects are recorded: encrypt_indirect_object <- the trailer's /Encrypt reference, metadata_indirect_object <- the
+    # catalog's /Metadata reference
+    want = {"encrypt_indirect_object": "Encrypt", "metadata_indirect_object": "Metadata"}
+    seen_fields = set()
+    for bb in f.bodies.values():
+        bfl = None
+        for i, j, st in F.stmts(bb):
+            if st[0] == "assign" and len(st[1]) > 1 and st[1][-1][0] == "field" and st[1][-1][2] in want and bb["id"] != "crypt::Decoder::new":
+                fld = st[1][-1][2]
+                bfl = bfl or Flow(bb)
+                rv = st[2]
+                ops = [rv[1]] if rv[0] == "use" else (list(rv[2]) if rv[0] == "aggregate" else [])
+                keys = set()
+                for o in ops:
+                    l = F.op_local(o)
+                    for a in bfl.origins(l) if l is not None else []:
+                        if a[0] == "const" and isinstance(a[1], dict) and "str" in a[1]:
+                            keys.add(a[1]["str"])
+                nones = rv[0] == "aggregate" and rv[1].get("variant") == "None"
+                if nones:
+                    continue
+                seen_fields.add(fld)
+                ctx.check(keys == {want[fld]}, "C06-G2", "%s#%s" % (bb["id"], fld), "Decoder.%s is set from the dictionary key(s) %s (expected /%s): the wrong object is exempted "
+                          "from decryption and the right one is not" % (fld, sorted(keys), want[fld]), bb["blocks"][i]["term"].get("span", bb["span"]), detail="%s <- /%s" % (fld, want[fld]))
+    ctx.floor("C06-G2", len(seen_fields), 2, "exempt-object fields that are assigned (encrypt_indirect_object, metadata_indirect_object)")
     # xref stream parsed without decoder
     n = 0
     for bb in f.bodies.values():
@@ -303,6 +378,23 @@ def rule_identity(ctx, f):
             flds = set()
             fl.origins(arg_local(t, 1), fields=flds)
             ctx.check("id" in flds, "C06-PROV", b["id"] + "#id", "Context::decrypt does not pass its own id", t["span"], detail="decrypt(self.id, ..)")
+    # both string forms ( (...) and <...> ) are decrypted: every Primitive::String the object parser builds holds bytes that went through
+    # Context::decrypt when a context is there
+    pp = f.body("parser::_parse_with_lexer_ctx")
+    if pp is None:
+        ctx.lost("C06-PROV", "parser::_parse_with_lexer_ctx")
+    else:
+        pfl = Flow(pp)
+        ns = 0
+        for i, j, st in F.stmts(pp):
+            if st[0] == "assign" and st[2][0] == "aggregate" and st[2][1].get("adt") == "primitive::Primitive" and st[2][1].get("variant") == "String":
+                ns += 1
+                l = F.op_local(st[2][2][0])
+                from flow import PASS_LAST
+                names = {last_seg(a[1]) for a in pfl.origins(l, passthrough=PASS_LAST + ("new",)) if a[0] == "call"} if l is not None else set()
+                ctx.check("decrypt" in names, "C06-PROV", "_parse_with_lexer_ctx#string-%d-decrypted" % ns, "a string form is built without passing through Context::decrypt: "
+                          "such strings of an encrypted document come back as ciphertext", pp["blocks"][i]["term"].get("span", pp["span"]), detail="string = ctx.decrypt(string)")
+        ctx.floor("C06-PROV", ns, 2, "Primitive::String constructions in the object parser (literal and hexadecimal)")
     n = 0
     for nm in ("parser::parse_object::parse_indirect_object", "parser::parse_object::parse_indirect_stream"):
         b = f.body(nm)
